@@ -44,7 +44,15 @@ static int tidA, tidY, tidZ, tidD, tidT2, script;
 
 static int choose (int n, const int *runnable, int cur) {
 	int i, k = 0, pick[16];
-	if (!vrt_sh_get (HOLD_D)) return -1;
+	if (!vrt_sh_get (HOLD_D)) {
+		/* also hold D back once it is INSIDE the early-release window (spinlock held, lock bits clear) after Y's round, whether or not T2 has
+		   noticed yet: T2 polls with yields and would otherwise see the window only by luck (fourth review, M2) */
+		uint32_t w;
+		if (vrt_sh_get (FREED) || !vrt_sh_get (Y_DONE)) return -1;
+		w = vrt_peek32 (&o->mu.word);
+		if (!((w & MU_SPINLOCK) != 0 && (w & (MU_WLOCK | MU_RLOCK_FIELD)) == 0)) return -1;
+		vrt_count ("chooser_saw_window");
+	}
 	for (i = 0; i < n && k < 16; i++) if (runnable[i] != tidD) pick[k++] = runnable[i];
 	if (k == 0) return -1;
 	return pick[vrt_rand ((uint32_t) k)];
@@ -68,6 +76,7 @@ static void thrY (void *a) {
 static void thrZ (void *a) {                     /* not a user of o */
 	struct nsync_waitable_s w, *pw[1];
 	w.v = &cv; w.funcs = &nsync_cv_waitable_funcs; pw[0] = &w;
+	if (script) while (!vrt_is_blocked (tidY)) vrt_yield ();      /* the shape needs the READER first on the cv queue and this record behind it */
 	nsync_wait_n (NULL, NULL, NULL, nsync_time_no_deadline, 1, pw);
 }
 static void thrD (void *a) {
@@ -85,7 +94,7 @@ static void thrT2 (void *a) {
 		uint32_t w;
 		if (vrt_sh_get (FREED)) return;      /* cannot happen before our own decrement; defensive */
 		w = vrt_peek32 (&o->mu.word);
-		if (vrt_sh_get (Y_DONE) && (w & MU_SPINLOCK) != 0 && (w & (MU_WLOCK | MU_RLOCK_FIELD)) == 0) break;
+		if (vrt_sh_get (Y_DONE) && (w & MU_SPINLOCK) != 0 && (w & (MU_WLOCK | MU_RLOCK_FIELD)) == 0) { vrt_count ("t2_saw_window"); break; }
 		if (vrt_sh_get (Y_DONE) && vrt_is_finished (tidD)) break;      /* D got through without a window: just finish the pattern */
 		vrt_yield ();
 	}
